@@ -193,6 +193,10 @@ func init() {
 		fmt.Fprintf(w, "def sstGuardExcludesDir : Bool := %s\n", c12Bool(sstDir))
 		fmt.Fprintf(w, "def sheetGuardExcludesDir : Bool := %s\n", c12Bool(sheetDir))
 		body := src(rz.Body)
+		// an entry first drops any earlier entry of the same name from both tiers
+		iDrop1, iDrop2 := strings.Index(body, "f.tempFiles.LoadAndDelete(fileName)"), strings.Index(body, "delete(fileList, fileName)")
+		iRm, iSpill := strings.Index(body, "os.Remove(path.(string))"), strings.Index(body, "f.unzipToTemp(v)")
+		fmt.Fprintf(w, "def dupReplaces : Bool := %s\n", c12Bool(iDrop1 >= 0 && iRm > iDrop1 && iDrop2 > iRm && iSpill > iDrop2))
 		iAcc, iGuard := strings.Index(body, "unzipSize += fileSize"), strings.Index(body, "unzipSize "+tot[0][0])
 		fmt.Fprintf(w, "def sizeAccumulatedBeforeGuard : Bool := %s\n", c12Bool(iAcc >= 0 && iGuard > iAcc))
 		iRead := strings.Index(body, "readFile(v)")
